@@ -608,7 +608,9 @@ func (sv *service) Flush(ctx context.Context, req *spb.FlushRequest) (*spb.Flush
 	var resp *spb.FlushResponse
 	var err error
 	req = inbound(req, r.names)
-	if r.fault == "ignoreFlush" {
+	_, named := req.GetNetworkInstance().(*spb.FlushRequest_Name)
+	if r.fault == "ignoreFlush" || (r.fault == "ignoreNamedFlush" && named) {
+		// ignoreNamedFlush: the faulty server honours a Flush of every instance but acknowledges and ignores a Flush of a named one
 		resp, err = &spb.FlushResponse{Result: spb.FlushResponse_OK}, nil
 	} else {
 		resp, err = sv.n.srv.Flush(ctx, req)
@@ -735,6 +737,64 @@ func ProbeLeaksResults(fault string) (bool, error) {
 	case <-time.After(2 * time.Second):
 		return false, nil
 	}
+}
+
+// ProbeIgnoresNamedFlush reports whether a node wrapped by the given fault acknowledges a Flush that names a network instance
+// and leaves the instance's entries in place (evidence that the wrapper is faulty as intended: a test that flushes everything
+// first never shows it in its wire trace).
+func ProbeIgnoresNamedFlush(fault string) (bool, error) {
+	n, err := newNode(nullSink{}, true, fault, Names{DefaultNI: srvDefault, VRF: "NON-DEFAULT-VRF"})
+	if err != nil {
+		return false, err
+	}
+	defer n.stop()
+	ctx, cancel := context.WithTimeout(context.Background(), 20*time.Second)
+	defer cancel()
+	cl := spb.NewGRIBIClient(n.conn)
+	st, err := cl.Modify(ctx)
+	if err != nil {
+		return false, err
+	}
+	if err := st.Send(&spb.ModifyRequest{Params: &spb.SessionParameters{Redundancy: spb.SessionParameters_SINGLE_PRIMARY, Persistence: spb.SessionParameters_PRESERVE}}); err != nil {
+		return false, err
+	}
+	if _, err := st.Recv(); err != nil {
+		return false, err
+	}
+	if err := st.Send(&spb.ModifyRequest{ElectionId: &spb.Uint128{Low: 3}}); err != nil {
+		return false, err
+	}
+	if _, err := st.Recv(); err != nil {
+		return false, err
+	}
+	p, err := abs.Concretise(abs.Op{ID: 1, NI: srvDefault, Typ: "ADD", Kind: "nh", Key: "7", PL: "a", NHs: []string{}, NoEID: true})
+	if err != nil {
+		return false, err
+	}
+	p.ElectionId = &spb.Uint128{Low: 3}
+	if err := st.Send(&spb.ModifyRequest{Operation: []*spb.AFTOperation{p}}); err != nil {
+		return false, err
+	}
+	if _, err := st.Recv(); err != nil {
+		return false, err
+	}
+	fr, err := cl.Flush(ctx, &spb.FlushRequest{NetworkInstance: &spb.FlushRequest_Name{Name: srvDefault}, Election: &spb.FlushRequest_Override{Override: &spb.Empty{}}})
+	if err != nil || fr.GetResult() != spb.FlushResponse_OK {
+		return false, nil
+	}
+	g, err := cl.Get(ctx, &spb.GetRequest{NetworkInstance: &spb.GetRequest_All{All: &spb.Empty{}}, Aft: spb.AFTType_ALL})
+	if err != nil {
+		return false, err
+	}
+	left := 0
+	for {
+		m, err := g.Recv()
+		if err != nil {
+			break
+		}
+		left += len(m.GetEntry())
+	}
+	return left > 0, nil
 }
 
 // ProbeAcceptsRepeatedParams reports whether a node wrapped by the given fault answers a verbatim repeat of the negotiated
